@@ -30,36 +30,24 @@ RULE = ("four streams. hist: histories of 5-30 requests over ONE engine; one his
         "two variables mapped, one of them renamed.")
 
 KNOWN_TEXT = {
-    "planner-reuse-stale-state":
-        "plan.Visitor keeps per-operation state across Plan calls (fieldPlanners / plannerFields are created in NewVisitor and "
-        "never reset): a plan.Planner that planned another operation before panics (index out of range in assignDefer) or yields "
-        "a plan with extra CoordinateDependencies; ExecutionEngine.getCachedPlan creates a planner per plan and is not affected",
     "dedup-off-duplicate-fetch-error":
         "with postprocess.DisableDeduplicateSingleFetches the duplicate fetches that de-duplication would merge each report their "
         "failure: `{ media { ... on Book { author { reviews { body } } } ... on Movie { author { reviews { body } } } } }` (arp, "
         "reviews subgraph answers with an error) carries \"Failed to fetch from Subgraph 'reviews' at Path 'media.@.author'.\" once "
         "with de-duplication and twice without; data and the SET of (message, path) error pairs are equal. The switch exists in "
         "the postprocess package only (the engine has no setting for it)",
-    "list-literal-variable-default-dropped":
-        "variable extraction replaces a list/object literal that contains a variable by a new variable whose value is built "
-        "from the supplied variables only: `query($v: String = \"hi\"){ topProducts { fmt(tags: [$v, \"z\"]) } }` with {} sends "
-        "tags [null,\"z\"] instead of [\"hi\",\"z\"] (the default of $v is lost)",
 }
 
 
 def classify(case, detail):
     d = detail
-    if d.startswith("plan_deterministic/reused"):
-        return "planner-reuse-stale-state"
+    # repaired in /repo and therefore no longer mapped -- a regression is a VIOLATION:
+    #   planner-reuse-stale-state (clause plan_deterministic/reused; work/fix3_planner-reuse-stale-state.patch: plan.Visitor
+    #     resets its per-operation state in EnterDocument)
+    #   list-literal-variable-default-dropped (clause normalize_semantic on a variable with a default inside a list / object
+    #     literal; work/fix3_nested-variable-in-extracted-literal.patch: the defaults are in the variables before extraction)
     if d.startswith("history_transparent dup_error_only=t dedup_off=t "):
         return "dedup-off-duplicate-fetch-error"
-    if d.startswith("normalize_semantic"):
-        m = re.search(r'op="(.*?)" vars=', d)
-        op = m.group(1) if m else ""
-        # a variable with a default value used inside a list / object literal
-        for vm in re.finditer(r"\$(\w+): [^=,)]+ = ", op):
-            if re.search(r"[\[{][^\]}]*\$%s\b" % re.escape(vm.group(1)), op):
-                return "list-literal-variable-default-dropped"
     return None
 
 
